@@ -27,8 +27,11 @@ SAN = ['-fsanitize=address,undefined', '-fno-sanitize=nonnull-attribute,pointer-
        '-fno-sanitize-recover=undefined']
 BASEFLAGS = ['-g', '-O1', '-fno-omit-frame-pointer', '-U_FORTIFY_SOURCE', '-D_FORTIFY_SOURCE=0',
              '-D_POSIX_C_SOURCE=200809L', '-D_XOPEN_SOURCE=700', '-Wno-deprecated-declarations',
-             '-DCPUSUPPORT_CONFIG_FILE="%s/sim/empty_config.h"' % VERIF,
              '-DAPISUPPORT_CONFIG_FILE="%s/sim/empty_config.h"' % VERIF]
+
+
+def engine_flags(e):
+    return BASEFLAGS + ['-DCPUSUPPORT_CONFIG_FILE="%s/%s"' % (VERIF, e.get('cpuconfig', 'sim/empty_config.h'))] + e.get('cflags', [])
 
 # runs per (tier, engine, property); C14 counts base plans (each is enumerated)
 RUNS = {
@@ -59,7 +62,7 @@ def file_hash(h, path):
 def engine_key(name, san=True):
     e = ENGINES[name]
     h = hashlib.sha256()
-    h.update(repr((BASEFLAGS, SAN if san else [], e['wrap'], e['libs'])).encode())
+    h.update(repr((engine_flags(e), SAN if san else [], e['wrap'], e['libs'])).encode())
     for s in e['repo']:
         file_hash(h, os.path.join(REPO, s))
     for d in e['inc']:
@@ -103,7 +106,7 @@ def build_engine(name, san=True):
     tmp = d + '.tmp%d' % os.getpid()
     shutil.rmtree(tmp, ignore_errors=True)
     os.makedirs(tmp)
-    flags = BASEFLAGS + (SAN if san else [])
+    flags = engine_flags(e) + (SAN if san else [])
     inc = ['-I' + os.path.join(REPO, i) for i in e['inc']] + ['-I' + os.path.join(VERIF, 'sim'),
                                                                  '-I' + os.path.join(VERIF, 'models')]
     jobs = []
